@@ -390,6 +390,8 @@ type pointBody struct {
 	code int
 	k    int
 	res  heldResult
+
+	holding *bool
 }
 
 func (h *pointBody) Header() http.Header { return h.hdr }
@@ -399,6 +401,9 @@ func (h *pointBody) Write(p []byte) (int, error) {
 		return len(p), nil
 	}
 	h.res.Opened = true
+	if h.holding != nil {
+		*h.holding = true
+	}
 	k := h.k
 	if k > len(p) {
 		k = len(p)
@@ -438,18 +443,21 @@ func holdHarness(sc holdScenario, fine bool) *vrt.Harness {
 		}
 		var hr heldResult
 		var bErr error
+		holding, collide := false, false
 		vrt.GoNamed("holder", func() {
+			defer func() { holding = false }()
 			if sc.Kind == "cas" {
 				h := &casHeld{s: s}
 				vrt.Point("open")
 				note(h.open())
+				holding = h.res.Opened
 				vrt.Point("hold 1")
 				h.part()
 				vrt.Point("hold 2")
 				hr = h.fin()
 				return
 			}
-			pb := &pointBody{hdr: http.Header{}, k: len(sc.A) / 2}
+			pb := &pointBody{hdr: http.Header{}, k: len(sc.A) / 2, holding: &holding}
 			vrt.Point("open")
 			req := httptest.NewRequest("GET", "http://"+selfAdr+"/namespace/"+rNS+"/blobs/sha256:"+s.d, nil)
 			s.handler.ServeHTTP(pb, req)
@@ -458,7 +466,13 @@ func holdHarness(sc holdScenario, fine bool) *vrt.Harness {
 			}
 			hr = pb.res
 		})
-		vrt.GoNamed("wB", func() { bErr = s.writeOther([]byte(sc.B)) })
+		vrt.GoNamed("wB", func() {
+			// vacuity: B written while the reader is held and A has left the memory cache
+			if holding && !s.cas.VerifInMemory(s.d) {
+				collide = true
+			}
+			bErr = s.writeOther([]byte(sc.B))
+		})
 		if sc.Drains > 0 {
 			vrt.GoNamed("drain", func() {
 				for k := 0; k < sc.Drains; k++ {
@@ -496,7 +510,7 @@ func holdHarness(sc holdScenario, fine bool) *vrt.Harness {
 			vs = append(vs, "content readable under d does not hash to d [write-through, memory cache on] | end state: "+badA+" "+badB)
 		}
 		sort.Strings(vs)
-		obs := fmt.Sprintf("held=%s opened=%v got=%q err=%v", sc.Kind, hr.Opened, hr.Got, hr.Err != "")
+		obs := fmt.Sprintf("held=%s opened=%v got=%q err=%v B-written-while-held-after-A-left-memory=%v", sc.Kind, hr.Opened, hr.Got, hr.Err != "", collide)
 		return obs, strings.Join(vs, "\n")
 	}}
 }
